@@ -78,14 +78,15 @@ TABLE = {
             'For every real value and every positive error in the exponent range, significance 1..6 and flags "", "+", " ": value and error are recovered from the printed string within half a unit of the last printed digit, the error has '
             'the requested number of significant digits, flags only prepend their character, CObs prints both parts, prior strings give exactly the parsed value and error, and comparisons / n-sigma test / plottable use value and dvalue.',
             'Claim over the reals: libm log10 at powers of ten and binary rounding inside printf are outside.'),
-    'C17': (True, 'symbolic execution of the openQCD binary readers on a typed-buffer file model (every stored double a distinct z3 symbol, directory listing order a parameter); z3 normal-form / SMT equality with the documented reduction per record',
+    'C17': (True, 'symbolic execution of the openQCD binary readers on a typed-buffer file model and of the sfcf text readers on a tagged-token text model (every stored number a distinct z3 symbol, directory listing order a parameter); z3 normal-form / SMT equality with the documented reduction per record',
             'read_rwms (1.4/1.6/2.0), read_qtop/_read_flow_obs (openQCD) and read_ms5_xsf are proven to attach to every replica name and configuration number exactly the documented reduction of the numbers stored in that record, '
-            'for all stored values, over replica sets with differing digit counts, all listing permutations, several factors / sources / flow times / correlators and r_start / r_stop / r_step selections.',
-            'openQCD binary formats only: sfcf text and Hadrons hdf5 readers are not applicable to this technique (text / h5py parsers); sfqcd flow variant not covered; file system replaced by the typed-buffer model.'),
-    'C18': (True, 'symbolic execution of the openQCD binary readers with a symbolic file length L (typed-buffer model); the solver partitions all truncation offsets into path classes; SMT / normal-form equality with the complete-record prefix',
+            'for all stored values, over replica sets with differing digit counts, all listing permutations, several factors / sources / flow times / correlators and r_start / r_stop / r_step selections; '
+            'read_sfcf (versions 2.0 / 2.0c / 2.0a: folder, compact and appended layout; bi / bb / bib correlators, wf / wf2 selections, real and imaginary part, explicit file lists) likewise.',
+            'Hadrons hdf5 readers are not applicable to this technique (h5py); sfcf version 0.0 and read_sfcf_multi with several names per call not covered; file system replaced by the in-memory models.'),
+    'C18': (True, 'symbolic execution of the openQCD binary readers with a symbolic file length L (typed-buffer model; the solver partitions all truncation offsets into path classes) and of the sfcf text readers with a symbolic cut position (one path per byte, numbers symbolic); SMT / normal-form equality with the complete-record prefix',
             'For every truncation length 0..len-1 of the truncated file (covered by the path partition, 3000+ classes) the reader either raises or returns exactly the observables of all complete records preceding the cut; '
             'the partial-read abstraction is justified by an AST scan of the current source on every run.',
-            'openQCD binary formats only; truncated json.gz / xml.gz / csv.gz archives and sfcf text files are not applicable (gzip / rapidjson / lxml / pandas decide).'),
+            'openQCD binary formats and sfcf text formats (cuts in selected files of each layout, every byte); truncated json.gz / xml.gz / csv.gz archives are not applicable (gzip / rapidjson / lxml / pandas decide).'),
     'C04': (True, 'symbolic execution of Obs.__init__ with z3-integer configuration numbers (SMT: rejected iff not strictly increasing, range iff equally spaced) + structural invariant and type-closure assertion on every result of one step of every operator / producer',
             'Constructor: for all configuration numbers in the box the accept / reject decision, the stored list and the range-vs-list form are decided by the solver on every path; all listed malformed requests are rejected; '
             'closure: every operator between Obs / CObs / int / float / complex in both orders and the other producers yield well-formed real or complex observables (the same invariant is asserted on every result in C01, C05, C07-C09, C11, C13, C17).',
